@@ -597,7 +597,32 @@ pub fn reject_probes(shapes: &[Shape], picks: &[usize]) -> Vec<(String, String, 
         let pick = picks[k % picks.len().max(1)];
         let twin = wrap(sh.decl("T", None, ""));
         let nf = sh.all_fields().len();
-        match k % 10 {
+        match k % 13 {
+            10 => {
+                // a second mode after the other options
+                let a = sh.attr().replace(")]", ", unsafe_drop)]").replace("unsafe_drop, unsafe_drop", "unsafe_drop, no_drop");
+                let a = if a.matches("unsafe_drop").count() + a.matches("no_drop").count() + a.matches("require_static").count() < 2 { a.replace(")]", ", no_drop)]") } else { a };
+                out.push(("two-modes-trailing".into(), wrap(sh.decl("T", Some(&a), "")), twin))
+            }
+            11 => {
+                if sh.extra_lifetime {
+                    let a = sh.attr().replace(")]", &format!(", gc_lifetime = {})]", sh.lt_name));
+                    out.push(("duplicate-gc_lifetime".into(), wrap(sh.decl("T", Some(&a), "")), twin));
+                } else if sh.n_params > 0 && sh.bound != Bound::Default && sh.mode != Mode::RequireStatic {
+                    let a = sh.attr().replace(")]", ", bound = \"\")]");
+                    out.push(("duplicate-bound".into(), wrap(sh.decl("T", Some(&a), "")), twin));
+                }
+            }
+            12 => {
+                // a mode (not require_static) on a field
+                if nf > 0 && sh.mode != Mode::RequireStatic {
+                    let decl = sh.decl("T", None, "");
+                    let bad = decl.replacen("f0: ", "#[collect(no_drop)] f0: ", 1);
+                    if bad != decl {
+                        out.push(("mode-attribute-on-a-field".into(), wrap(bad), twin));
+                    }
+                }
+            }
             0 => out.push(("missing-mode".into(), wrap(sh.decl("T", Some(""), "")), twin)),
             1 => {
                 let a = sh.attr().replace("#[collect(", "#[collect(unsafe_drop, ").replace("unsafe_drop, unsafe_drop", "unsafe_drop, no_drop");
